@@ -1,18 +1,26 @@
 """C09 Object-level predicates form a consistent algebra across all kinds."""
 import json, os
-import vlib, objs_common as oc
+import vlib, objs_common as oc, session_common as sc
 
 PID = "C09"
 
 
 def prepare():
     oc.gen()
+    sc.mc()
+    sc.warm()
 
 
 def run(tier, seed, t0):
     data, meta, summ, events, out = oc.replay(PID, tier, seed)
     v = vlib.Verdict(PID)
-    nrel = oc.classify_rel(v, events)
+    # the session machine: behaviours of spec/Session.tla stepped through the real library
+    sev, ssum, smeta, mcm = sc.replay(PID, tier, seed)
+    nrel = oc.classify_rel(v, events + sev)
+    for e in sev:
+        if e["op"] == "session" and (e["what"] in ("reparse-accepted", "reparse-rejected", "reparse-fixpoint", "action-panic", "fact-panic") or not sc.is_coll_tree(e.get("tree"))):
+            v.violation({"property": PID, "event": e, "what": "session step %d (%s): %s: got %s, the specification says %s" % (
+                e["step"], e["history"][-1], e["what"], json.dumps(e.get("got"))[:300], json.dumps(e.get("exp"))[:300])})
     for e in events:
         if e["op"] == "dual":
             v.violation({"property": PID, "event": e, "what": "%s give different answers (%s vs %s) for A=%s B=%s" % (
@@ -32,7 +40,7 @@ def run(tier, seed, t0):
         v.violation({"property": PID, "event": e, "law": m[2], "what": "law '%s' fails for A=%s B=%s" % (m[2], json.dumps(e["A"])[:200], json.dumps(e["B"])[:200])})
     rc = v.finish()
     cov = {
-        "states": meta["distinct"] + r.distinct, "transitions": meta["generated"] + r.generated, "traces_validated_against_impl": 1,
+        "states": meta["distinct"] + r.distinct, "transitions": meta["generated"] + r.generated, "traces_validated_against_impl": 1 + smeta["behaviours"],
         "evaluations": summ["relation_calls"] + len(laws) * 12, "distinct_nontrivial": summ["relation_calls"] // 6 + len(laws),
         "rule": "Gen_Obj: 19 lattice leaves on which the leaf predicates are exact (points incl. SimplePoint, 2-point lines, rectangles, "
                 "convex polygons) with witness masks, 4 empty leaves, a Feature around each, all two-child GeometryCollections, "
@@ -50,6 +58,7 @@ def run(tier, seed, t0):
         "samples": [{"law_event": laws[len(laws) // 2]}],
         "relation_calls": summ["relation_calls"], "relation_mismatches": nrel, "law_events_judged_by_tlc": len(laws), "wild_law_events": summ.get("wild_law_events"), "transparency_events": summ.get("equivalence_events"), "law_violations": len(mism),
         "known_finding_hits": v.known_hits,
+        "session_machine": sc.evidence(ssum, smeta, mcm, sev),
     }
     vlib.write_evidence(PID, tier, seed, t0, cov, [vlib.TOOLS, vlib.A_FLOAT,
                         "leaves are restricted to shapes on which the pinned leaf predicates are exact (the inexact ones are C03's known findings); Circles take part in the laws only",
